@@ -13,6 +13,7 @@ T_, F_ = z3.BoolVal(True), z3.BoolVal(False)
 
 def call_all(eng, st, f, args):
     s = st.copy()
+    s.steps = 0            # the step bound is per call, not per history
     eng.push_call(s, f, args, None, None)
     return eng.run(s)
 
@@ -155,15 +156,13 @@ def run_drain_job(prog, job):
                 res['paths'] += 1; res['steps'] += s.steps
                 ob = []
                 if len(got) >= 2: ob.append(('C07.drain_distinct', z3.Distinct(*[i for (i, _, _) in got])))
-                # j-th allocation (0-based): if j < nfree it is the j-th element of the free list, else the fresh slot N+1+(j-nfree)
-                some, cur = V0.ff_some, V0.ff_idx
+                # the first nfree allocations recycle free-listed slots (any order, each once: pairwise distinct above),
+                # the later ones are the fresh slots N+1, N+2, ... in order; count() grows only once the list is empty
                 for j, (ri, rs, cnt_after) in enumerate(got):
                     recyc = z3.ULT(BV64(j), nfree)
-                    ob.append(('C07.drain_recycles_fifo[%d]' % j, z3.Implies(recyc, z3.And(some, ri == cur + 1))))
+                    ob.append(('C07.drain_recycles_free_slot[%d]' % j, z3.Implies(recyc, sel(onl0, ri, F_) if N else F_)))
                     ob.append(('C07.drain_fresh_slot[%d]' % j, z3.Implies(z3.Not(recyc), ri == BV64(N + 1 + j) - nfree)))
                     ob.append(('C07.drain_count[%d]' % j, BV64(cnt_after) == z3.If(z3.UGE(nfree, BV64(j + 1)), BV64(N), BV64(N + j + 1) - nfree)))
-                    nsome = sel(V0.nf_some, cur + 1, F_); nidx = sel(V0.nf_idx, cur + 1, BV64(0))
-                    some, cur = z3.And(some, nsome), nidx
                 Vn = View(s.store[acell])
                 ob.append(('C07.drain_list_empty', z3.Not(Vn.ff_some)))
                 if eng.solver.check(*(s.pc + [z3.UGE(nfree, BV64(2))])) == z3.sat: cov['drained_two_or_more'] = True
@@ -251,7 +250,9 @@ def confirm(prop, v):
                     r = res.get(nd + 1 + 2 * k)
                     pid = replay.parse_id(r[1]) if r and r[0] == 'OK' else None
                     gotids.append(pid[0] if pid else None)
-                if gotids != expect[:N + 1]: bad.append('allocation order %s, expected %s' % (gotids, expect[:N + 1]))
+                k_ = len(order)
+                if sorted(x_ for x_ in gotids[:k_] if x_ is not None) != sorted(order) or gotids[k_:] != expect[k_:N + 1]:
+                    bad.append('allocations returned %s, expected the free slots %s (any order) then %s' % (gotids, order, expect[k_:N + 1]))
                 nonfree = [i + 1 for i, s_ in enumerate(st0['slots']) if s_['stamp'] < 0 and s_['stamp'] > -32768 and (i + 1) not in order]
                 if nonfree: bad.append('removed reusable slots not on the free list: %s' % nonfree)
             except Exception as e:
